@@ -15,14 +15,14 @@ use std::sync::OnceLock;
 pub const LAYOUTS: &[(&str, &str)] = &[
     ("101", "20 21R? 28D 50[CL]? 50[FGH]? 52[AC]? 51A? 30 25? ( 21 21F? 23E* 32B 50[CL]? 50[FGH]? 52[AC]? 56[ACD]? 57[ACD]? 59[-AF] 70? 77B? 33B? 71A 25A? 36? ){1,}"),
     ("103", "20 13C* 23B 23E* 26T? 32A 33B? 36? 50[AFK] 51A? 52[AD]? 53[ABD]? 54[ABD]? 55[ABD]? 56[ACD]? 57[ABCD]? 59[-AF] 70? 71A 71F* 71G? 72? 77B? 77T?"),
-    ("104", "20 21R? 23E? 21E? 30 51A? 50[CL]? 50[AK]? 52[ACD]? 26T? 77B? 71A? 72? ( 21 23E? 21C? 21D? 21E? 32B 50[CL]? 50[AK]? 52[ACD]? 57[ACD]? 59[-A] 70? 26T? 77B? 33B? 71A? 71F? 71G? 36? ){1,} ( 32B 19? 71F? 71G? 53[AB]? ){0,1}"),
+    ("104", "20 21R? 23E? 21E? 30 51A? 50[CL]? 50[AK]? 52[ACD]? 26T? 77B? 71A? 72? ( 21 23E? 21C? 21D? 21E? 32B 50[CL]? 50[AK]? 52[ACD]? 57[ACD]? 59[-A] 70? 26T? 77B? 33B? 71A? 71F? 71G? 36? ){1,} (: 32B 19? 71F? 71G? 53[AB]? ){0,1}"),
     ("107", "20 23E? 21E? 30 51A? 50[CL]? 50[AK]? 52[ACD]? 26T? 77B? 71A? 72? ( 21 23E? 21C? 21D? 21E? 32B 50[CL]? 50[AK]? 52[ACD]? 57[ACD]? 59[-A] 70? 26T? 77B? 33B? 71A? 71F? 71G? 36? ){1,} 32B 19? 71F? 71G? 53[AB]?"),
     ("110", "20 53[ABD]? 54[ABD]? 72? ( 21 30 32[AB] 50[AFK]? 52[ABD]? 59[-F] ){1,10}"),
     ("111", "20 21 30 32[AB] 52[AD]? 59? 75?"),
     ("112", "20 21 30 32[AB] 52[AD]? 59? 76"),
     ("190", "20 21 25 32[CD] 52[AD]? 71B 72?"),
     ("191", "20 21 32B 52[AD]? 57[ABD]? 71B 72?"),
-    ("192", "20 21 11S 79?"),
+    ("192", "20 21 11S 79"),
     ("196", "20 21 76 77A? 79?"),
     ("199", "20 21? 79"),
     ("200", "20 32A 53B? 56[AD]? 57[ABD] 72?"),
@@ -32,7 +32,7 @@ pub const LAYOUTS: &[(&str, &str)] = &[
     ("210", "20 25? 30 ( 21 32B 50[-CF]? 52[AD]? 56[AD]? ){1,10}"),
     ("290", "20 21 25 32[CD] 52[AD]? 71B 72?"),
     ("291", "20 21 32B 52[AD]? 57[ABD]? 71B 72?"),
-    ("292", "20 21 11S 79?"),
+    ("292", "20 21 11S 79"),
     ("296", "20 21 76 77A? < 11R 11S >? 79?"),
     ("299", "20 21? 79"),
     ("900", "20 21 25 13D? 32A 52[AD]? 72?"),
@@ -48,7 +48,8 @@ pub const LAYOUTS: &[(&str, &str)] = &[
 #[derive(Clone, Debug)]
 pub enum L {
     Field { base: String, letters: Vec<String>, min: usize, max: usize },
-    Group { items: Vec<L>, min: usize, max: usize },
+    /// `inline`: the group is not a JSON sequence of its own (its fields sit at the parent level)
+    Group { items: Vec<L>, min: usize, max: usize, inline: bool },
     OneOf { items: Vec<L>, min: usize, max: usize },
 }
 
@@ -79,13 +80,13 @@ fn parse_items(toks: &[String], i: &mut usize, closer: &str) -> Vec<L> {
             return out;
         }
         *i += 1;
-        if t == "(" || t == "<" {
-            let close = if t == "(" { ")" } else { ">" };
+        if t == "(" || t == "<" || t == "(:" {
+            let close = if t == "<" { ">" } else { ")" };
             let items = parse_items(toks, i, close);
             let ct = toks[*i].clone();
             *i += 1;
             let (min, max) = parse_quant(&ct[1..]);
-            out.push(if t == "(" { L::Group { items, min, max } } else { L::OneOf { items, min, max } });
+            out.push(if t == "<" { L::OneOf { items, min, max } } else { L::Group { items, min, max, inline: t == "(:" } });
         } else {
             // field token
             let base = t[0..2].to_string();
@@ -226,12 +227,16 @@ pub fn gen_items(mt: &str, items: &[L], src: &mut Src, o: &GenOpts, path: &mut V
                     out.push(GenField { tag, content, comps, path: path.clone(), mandatory: *min >= 1, n_options: letters.len() });
                 }
             }
-            L::Group { items, min, max } => {
+            L::Group { items, min, max, inline } => {
                 let n = pick_count(src, *min, *max, o);
                 for k in 0..n {
-                    path.push(k);
+                    if !*inline {
+                        path.push(k);
+                    }
                     gen_items(mt, items, src, o, path, hook, out);
-                    path.pop();
+                    if !*inline {
+                        path.pop();
+                    }
                 }
             }
             L::OneOf { items, min, max } => {
@@ -258,45 +263,68 @@ fn tag_matches(base: &str, letters: &[String], tag: &str) -> bool {
     tag.len() >= 2 && &tag[0..2] == base && letters.iter().any(|l| l.as_str() == &tag[2..])
 }
 
-fn rec_items(items: &[L], idx: usize, tags: &[String], pos: usize, k: &mut dyn FnMut(usize) -> bool) -> bool {
-    if idx == items.len() {
-        return k(pos);
+use std::collections::BTreeSet;
+
+/// NFA-style recogniser: the set of positions reachable after matching `items` from
+/// any position in `from` (no backtracking blow-up).
+fn rec_items(items: &[L], tags: &[String], from: &BTreeSet<usize>) -> BTreeSet<usize> {
+    let mut cur = from.clone();
+    for it in items {
+        cur = rec_rep(it, tags, &cur);
+        if cur.is_empty() {
+            break;
+        }
     }
-    rec_rep(&items[idx], 0, tags, pos, &mut |p| rec_items(items, idx + 1, tags, p, k))
+    cur
 }
 
-fn rec_rep(it: &L, done: usize, tags: &[String], pos: usize, k: &mut dyn FnMut(usize) -> bool) -> bool {
+fn rec_once(it: &L, tags: &[String], from: &BTreeSet<usize>) -> BTreeSet<usize> {
+    match it {
+        L::Field { base, letters, .. } => from.iter().filter(|p| **p < tags.len() && tag_matches(base, letters, &tags[**p])).map(|p| p + 1).collect(),
+        L::Group { items, .. } => rec_items(items, tags, from),
+        L::OneOf { items, .. } => {
+            let mut out = BTreeSet::new();
+            for alt in items {
+                out.extend(rec_rep(alt, tags, from));
+            }
+            out
+        }
+    }
+}
+
+fn rec_rep(it: &L, tags: &[String], from: &BTreeSet<usize>) -> BTreeSet<usize> {
     let (min, max) = match it {
         L::Field { min, max, .. } | L::Group { min, max, .. } | L::OneOf { min, max, .. } => (*min, *max),
     };
-    // try one more occurrence (greedy), then stopping
-    if done < max {
-        let more = match it {
-            L::Field { base, letters, .. } => {
-                if pos < tags.len() && tag_matches(base, letters, &tags[pos]) { rec_rep(it, done + 1, tags, pos + 1, k) } else { false }
-            }
-            L::Group { items, .. } => rec_items(items, 0, tags, pos, &mut |p| if p > pos { rec_rep(it, done + 1, tags, p, k) } else { false }),
-            L::OneOf { items, .. } => {
-                let mut r = false;
-                for alt in items {
-                    if rec_rep(alt, 0, tags, pos, &mut |p| if p > pos { rec_rep(it, done + 1, tags, p, k) } else { false }) {
-                        r = true;
-                        break;
-                    }
-                }
-                r
-            }
-        };
-        if more {
-            return true;
-        }
+    let mut out = BTreeSet::new();
+    if min == 0 {
+        out.extend(from.iter().copied());
     }
-    if done >= min { k(pos) } else { false }
+    let mut cur = from.clone();
+    let mut k = 0usize;
+    while k < max && k <= tags.len() + 1 {
+        let next: BTreeSet<usize> = rec_once(it, tags, &cur);
+        k += 1;
+        if next.is_empty() {
+            break;
+        }
+        if k >= min {
+            out.extend(next.iter().copied());
+        }
+        // an occurrence that consumes nothing cannot make progress
+        if next == cur {
+            break;
+        }
+        cur = next;
+    }
+    out
 }
 
 /// Is the tag sequence in the layout language of the type?
 pub fn in_language(mt: &str, tags: &[String]) -> bool {
-    rec_items(layout_of(mt), 0, tags, 0, &mut |p| p == tags.len())
+    let mut from = BTreeSet::new();
+    from.insert(0usize);
+    rec_items(layout_of(mt), tags, &from).contains(&tags.len())
 }
 
 /// All tags (base+letter) the layout of the type mentions.
